@@ -97,6 +97,53 @@ func checkC11(c *Ctx) {
 		c.Case("synbin:"+binProgs[i], true)
 	})
 
+	// ---- syntax half, assignment targets (grammar: JqParse)
+	type tgtVec struct {
+		Toks []struct {
+			Tag  string `json:"tag"`
+			Text string `json:"text"`
+		} `json:"toks"`
+		Refused bool `json:"refused"`
+	}
+	var tjobs []Job
+	var tmeta []tgtVec
+	c.TLC(TLCOpt{Module: "MC_AssignTarget", Heap: "4g", Workers: 8,
+		Cfg: cfgText("INIT Init", "NEXT Next", "INVARIANTS Law Vec", "CHECK_DEADLOCK FALSE"),
+		OnVec: func(raw []byte) {
+			var v tgtVec
+			VecDecode(raw, &v)
+			parts := make([]string, len(v.Toks))
+			for i, t := range v.Toks {
+				if t.Tag == "Str" {
+					parts[i] = "\"" + t.Text + "\""
+				} else {
+					parts[i] = t.Text
+				}
+			}
+			expr := strings.Join(parts, " ")
+			for _, prog := range []string{
+				"function f() {\n  return {x: 1}\n}\nBEGIN {\n  print \"before\"\n}\nBEGIN {\n  a = {x: [0, {y: 1}]};\n  b = 2;\n  " + expr + ";\n  print \"after\"\n}\n",
+				"function f() {\n  return {x: 1}\n}\nBEGIN {\n  print \"before\"\n}\n{\n  if (" + expr + ") {\n    print 1\n  }\n}\n"} {
+				tjobs = append(tjobs, Job{Kind: "run", Prog: []byte(prog), Files: []FileIn{{Name: "in.json", Data: []byte("[1]")}}, Budget: 100000, Tag: expr})
+				tmeta = append(tmeta, v)
+			}
+		}})
+	pool.Map(tjobs, func(i int, r Result) {
+		v := tmeta[i]
+		rep := map[string]any{"expression": tjobs[i].Tag, "program": string(tjobs[i].Prog), "grammar_refuses": v.Refused, "got_class": r.Class, "got_stdout": string(r.Stdout), "got_err": r.ErrMsg}
+		if v.Refused && (r.Class != "syntax" || len(r.Stdout) != 0) {
+			rep["why"] = "assignment to a non-assignable target must be a syntax error with no output"
+			c.Violation("assign-target", rep)
+			return
+		}
+		if !v.Refused && r.Class == "syntax" {
+			rep["why"] = "an assignment the grammar allows was refused as a syntax error"
+			c.Violation("assign-target", rep)
+			return
+		}
+		c.Case("tgt:"+string(tjobs[i].Prog), v.Refused)
+	})
+
 	// ---- runtime half
 	maxNodes := 3
 	perVec := 5
